@@ -91,7 +91,7 @@ func genAPI(t *rapid.T) apiCase {
 	})
 	c.Steps = rapid.SliceOfN(step, 1, 40).Draw(t, "steps")
 	if c.Chain == "hybrid" || c.Chain == "hybrid-loading" || c.Chain == "loading-hybrid" {
-		c.Overflow = rapid.SampledFrom([]int{0, 0, 150, 400}).Draw(t, "overflow")
+		c.Overflow = rapid.SampledFrom([]int{0, 0, 60, 100}).Draw(t, "overflow")
 	}
 	return c
 }
@@ -588,41 +588,45 @@ func execAPI(c apiCase, x *verifkit.Ctx) (fail *verifkit.Failure) {
 	// overflow phase (hybrid chains): the builder's default workers / admission probability 1 must move
 	// what the memory tier evicts into the secondary tier
 	if c.Overflow > 0 && !c.Doorkeeper {
+		// C15 conditions on room in the hand-off queue (256 slots; a full queue drops demotions by
+		// design). Every queued entry stems from one insert event, and the whole case produces at most
+		// 40 (steps) + 100 (overflow Sets) + 100 (promotions by the final reads) of those, so the queue
+		// cannot fill up however far maintenance and the workers lag behind on a busy machine. (A first
+		// version stored up to 400 keys and paced them by watching the secondary tier go quiet; on a
+		// loaded machine that pacing let more than 256 evictions pile up: false alarm, DESIGN section 10.)
 		base := 1000
+		ocost := int64(c.MaxSize / 20)
 		vals := map[int]int{}
-		for j := 0; j < c.Overflow*c.MaxSize/1000; j++ { // Overflow = total cost in percent of MaxSize, cost 10 each
+		for j := 0; j < c.Overflow; j++ {
 			k := base + j
 			v := newVal(k, false)
-			if !cl.set(k, v, 10, 0) {
-				return failf("api/set/false-without-reason", "overflow phase: Set(key %d, cost 10) returned false", len(c.Steps)-1, k)
+			if !cl.set(k, v, ocost, 0) {
+				return failf("api/set/false-without-reason", "overflow phase: Set(key %d, cost %d) returned false", len(c.Steps)-1, k, ocost)
 			}
 			vals[k] = v
-			if j%100 == 99 {
-				apiSettle(sec)
-			}
 		}
 		apiSettle(sec)
-		if len(vals)*10 > c.MaxSize {
-			missing := 0
-			first := -1
-			keys := make([]int, 0, len(vals))
-			for k := range vals {
-				keys = append(keys, k)
-			}
-			sort.Ints(keys)
-			for _, k := range keys {
-				gv, gok, gerr := apiPeek(cl, ls, k)
-				if gerr != nil || !gok || gv != vals[k] {
-					missing++
-					if first < 0 {
-						first = k
-					}
+		missing := 0
+		first := -1
+		keys := make([]int, 0, len(vals))
+		for k := range vals {
+			keys = append(keys, k)
+		}
+		sort.Ints(keys)
+		for _, k := range keys {
+			gv, gok, gerr := apiPeek(cl, ls, k)
+			if gerr != nil || !gok || gv != vals[k] {
+				missing++
+				if first < 0 {
+					first = k
 				}
 			}
-			if missing > 0 {
-				return verifkit.Failf("api/hybrid/evicted-entries-not-in-secondary", "chain %s: %d keys of cost 10 stored once each into MaxSize %d with the builder's default admission probability and workers; after the workers settled %d of them are in neither tier (first: key %d; secondary Set calls: %d)", c.Chain, len(vals), c.MaxSize, missing, first, sec.setCount())
-			}
-			x.Class("hybrid-overflow")
+		}
+		if missing > 0 {
+			return verifkit.Failf("api/hybrid/evicted-entries-not-in-secondary", "chain %s: %d keys of cost %d stored once each into MaxSize %d with the builder's default admission probability and workers (fewer insert events in the whole case than the hand-off queue has slots); %d of them are in neither tier (first: key %d; secondary Set calls: %d)", c.Chain, len(vals), ocost, c.MaxSize, missing, first, sec.setCount())
+		}
+		if sec.setCount() > 0 {
+			x.Class("hybrid-overflow-with-demotions")
 		}
 	}
 	if mixedTTL || expiredWrite || oversize || loaded {
@@ -671,7 +675,7 @@ func minInt(a, b int) int {
 func TestVerifC06API(t *testing.T) {
 	verifkit.Run(t, verifkit.Spec[apiCase]{
 		ID: "C06", Gen: genAPI, Exec: execAPI,
-		Rule: "C06 (public API tier): rapid draws one of the six public builder chains (Build, Loading.Build, BuildWithLoader, Hybrid.AdmProbability.Build, Hybrid.Workers.Loading.Build, Loading.Hybrid.Build), MaxSize, cost function on/off, doorkeeper on/off, a removal listener, and up to 40 steps of SetWithTTL (costs 1..30, MaxSize+1, 5 x MaxSize, or 0 = cost function, which prices some values above MaxSize; TTLs 1 ns..1 h or none) / Get (loading chains: scripted loader value, cost, TTL) / Delete / advance of the virtual clock to and around the deadlines / views (Wait, Range, Len, EstimatedSize); the costs of all keys together fit into MaxSize, so nothing may be evicted; reference map with per-key hard deadline (never served at or after it) and soft deadline (a miss is acceptable from then on: TTL-less Set over an unexpired TTL'd value); hybrid chains end with an overflow phase of distinct keys stored once whose evicted entries must all be found in one of the tiers; non-trivial = TTL and non-TTL writes mixed on a key, a write after expiry, an oversize cost, or a load",
+		Rule: "C06 (public API tier): rapid draws one of the six public builder chains (Build, Loading.Build, BuildWithLoader, Hybrid.AdmProbability.Build, Hybrid.Workers.Loading.Build, Loading.Hybrid.Build), MaxSize, cost function on/off, doorkeeper on/off, a removal listener, and up to 40 steps of SetWithTTL (costs 1..30, MaxSize+1, 5 x MaxSize, or 0 = cost function, which prices some values above MaxSize; TTLs 1 ns..1 h or none) / Get (loading chains: scripted loader value, cost, TTL) / Delete / advance of the virtual clock to and around the deadlines / views (Wait, Range, Len, EstimatedSize); the costs of all keys together fit into MaxSize, so nothing may be evicted; reference map with per-key hard deadline (never served at or after it) and soft deadline (a miss is acceptable from then on: TTL-less Set over an unexpired TTL'd value); hybrid chains end with an overflow phase of 60 or 100 distinct keys stored once (3 or 5 x MaxSize in total; fewer insert events per case than the hand-off queue has slots) all of which must be found in one of the tiers; non-trivial = TTL and non-TTL writes mixed on a key, a write after expiry, an oversize cost, or a load",
 		Assumptions: []string{
 			"sequential client; virtual wall clock (hook H1) with the real once-a-second maintenance tick running in the background: Len and EstimatedSize are therefore judged as intervals (expired entries may or may not have been reclaimed), reads and Range exactly",
 			"entry pool off; the doorkeeper's answers for keys that are not certainly resident are accepted either way (bloom filter)",
